@@ -237,9 +237,14 @@ func Match(ctx context.Context, path *ast.AST, value any, opt ...Option) (bool, 
 	// 	)
 	// }
 
-	vals, err := exec.execute(ctx, value)
+	vals, res, err := exec.executeStatus(ctx, value)
 	if err != nil {
 		return false, err
+	}
+	if res.failed() {
+		// A suppressed failure: the items found before it do not tell
+		// whether the complete result is a single boolean.
+		return false, NULL
 	}
 
 	if len(vals.list) == 1 {
@@ -267,11 +272,18 @@ func (exec *Executor) autoWrap() bool              { return exec.path.IsLax() }
 
 // execute executes exec.path against value, returning selected values or an error.
 func (exec *Executor) execute(ctx context.Context, value any) (*valueList, error) {
+	vals, _, err := exec.executeStatus(ctx, value)
+	return vals, err
+}
+
+// executeStatus is execute, also returning the status of the execution, which
+// is failed without an error when the failure was suppressed.
+func (exec *Executor) executeStatus(ctx context.Context, value any) (*valueList, resultStatus, error) {
 	exec.root = value
 	exec.current = value
 	vals := newList()
-	_, err := exec.query(ctx, vals, exec.path.Root(), value)
-	return vals, err
+	res, err := exec.query(ctx, vals, exec.path.Root(), value)
+	return vals, res, err
 }
 
 // exists returns true if the path passed to New() returns at least one item
